@@ -190,7 +190,7 @@ pub fn generate(seed: u64, tier: &str, sink: &mut Sink) {
     }
     // (3) endless constructs: 1 MiB prefixes standing for an infinite stream
     let endless_len = 1 << 20;
-    let cap = crate::resp::BUFREADER_CAP;
+    let cap = crate::resp::bufreader_cap();
     let filler: Vec<u8> = vec![b'a'; endless_len];
     let mut run_endless = |name: &str, wire: Vec<u8>, max_headers: usize, pulled_bound: usize, sink: &mut Sink, must_fail_head: bool| {
         for seg_mode in 0..3 {
